@@ -184,6 +184,10 @@ class _ExpressionConverter:
             elif isinstance(current_formula, Constant):
                 result_stack.append(em.ObjectExp(self._objects[current_formula.name]))
             elif isinstance(current_formula, (Predicate, NumericFunction)):
+                if current_formula.name not in self._fluents:
+                    raise UPUnsupportedProblemTypeError(
+                        f"{current_formula.name} is not a fluent of the converted problem"
+                    )
                 for term in current_formula.terms:
                     stack.append(
                         (term, current_action_parameters, current_quantifier_variables)
@@ -292,6 +296,16 @@ class _ExpressionConverter:
                                 self._em.Times(self._em.Int(-1), negated_arg)
                             )
                     else:
+                        # the pddl parser merges nested and drops repeated operands
+                        # of every operator: a comparison, implication, difference or
+                        # division left with a number of operands different from 2, or
+                        # a sum or product left with a single one, cannot be converted
+                        if op_type not in (And, Or) and (
+                            len(args) < 2 or (op_type not in (Plus, Times) and len(args) > 2)
+                        ):
+                            raise UPUnsupportedProblemTypeError(
+                                f"{op_type.__name__} with {len(args)} operands not supported"
+                            )
                         final_stack.append(
                             self._direct_matching_expressions[op_type](*reversed(args))
                         )
@@ -487,6 +501,38 @@ class AIPDDLConverter:
         for obj in self._problem.objects:
             self._add_object(obj)
 
+    def _is_action_cost(self, function: Any) -> bool:
+        """
+        Returns `True` if the given pddl function is the `total-cost` that this
+        conversion turns into the action costs of a `MinimizeActionCosts` metric.
+        """
+        return (
+            self._has_action_costs
+            and isinstance(function, NumericFunction)
+            and function.name == "total-cost"
+            and function.arity == 0
+        )
+
+    def _check_cost_effect(
+        self,
+        action_name: str,
+        quantifier_variables: Dict[str, UPVariable],
+        condition: FNode,
+    ):
+        """
+        An action cost is one unconditional effect on `total-cost`; anything else
+        can not be expressed with a `MinimizeActionCosts` metric.
+        """
+        assert self._action_costs is not None
+        if quantifier_variables or condition != self._em.TRUE():
+            raise UPUnsupportedProblemTypeError(
+                f"Conditional or quantified effect on total-cost in action {action_name} not supported"
+            )
+        if action_name in self._action_costs:
+            raise UPUnsupportedProblemTypeError(
+                f"More than one effect on total-cost in action {action_name} not supported"
+            )
+
     def _convert_effects(
         self,
         action_parameters_expression: Dict[str, Parameter],
@@ -551,15 +597,11 @@ class AIPDDLConverter:
                 pddl_fluent = current_effect.operands[0]
                 pddl_value = current_effect.operands[1]
                 # check if action_cost is increased
-                if (
-                    isinstance(pddl_fluent, NumericFunction)
-                    and pddl_fluent.name == "total-cost"
-                    and pddl_fluent.arity == 0
-                ):
-                    assert self._has_action_costs
+                if self._is_action_cost(pddl_fluent):
                     assert self._action_costs is not None
-                    assert current_quantifier_variables == {}
-                    assert current_condition == self._em.TRUE()
+                    self._check_cost_effect(
+                        action_name, current_quantifier_variables, current_condition
+                    )
                     self._action_costs[action_name] = (
                         self._expression_converter.convert_expression(
                             pddl_value,
@@ -590,15 +632,11 @@ class AIPDDLConverter:
                 pddl_fluent = current_effect.operands[0]
                 pddl_value = current_effect.operands[1]
                 # check if it is decreasing the action cost
-                if (
-                    isinstance(pddl_fluent, NumericFunction)
-                    and pddl_fluent.name == "total-cost"
-                    and pddl_fluent.arity == 0
-                ):
-                    assert self._has_action_costs
+                if self._is_action_cost(pddl_fluent):
                     assert self._action_costs is not None
-                    assert current_quantifier_variables == {}
-                    assert current_condition == self._em.TRUE()
+                    self._check_cost_effect(
+                        action_name, current_quantifier_variables, current_condition
+                    )
                     positive_value = self._expression_converter.convert_expression(
                         pddl_value,
                         action_parameters_expression,
@@ -686,15 +724,21 @@ class AIPDDLConverter:
         assert self._up_problem is not None
         assert self._expression_converter is not None
         assert self._problem is not None
+        total_cost_initialized = False
         for init in self._problem.init:
-            if (
-                isinstance(init, EqualToFunction)
-                and isinstance(init.operands[0], NumericFunction)
-                and init.operands[0].name == "total-cost"
-                and init.operands[0].arity == 0
+            if isinstance(init, EqualToFunction) and self._is_action_cost(
+                init.operands[0]
             ):
-                assert self._has_action_costs
-                assert self._action_costs is not None
+                # action costs are counted from 0
+                initial_cost = init.operands[1]
+                if (
+                    not isinstance(initial_cost, NumericValue)
+                    or initial_cost.value != 0
+                ):
+                    raise UPUnsupportedProblemTypeError(
+                        f"Initial value {initial_cost} of total-cost not supported"
+                    )
+                total_cost_initialized = True
                 continue
 
             init_expr = self._expression_converter.convert_expression(init, {}, {})
@@ -711,6 +755,10 @@ class AIPDDLConverter:
                 raise UPUnsupportedProblemTypeError(
                     f"Initial value {init_expr} not supported"
                 )
+        if self._has_action_costs and not total_cost_initialized:
+            raise UPUnsupportedProblemTypeError(
+                "total-cost without initial value 0 not supported"
+            )
 
     def _convert_goals(self):
         assert self._up_problem is not None
